@@ -6,7 +6,7 @@ WHAT = {
  "C01-a": "`break` instead of `continue` in update_mu_boundary: terminals after an unchanged one keep stale boundary currents",
  "C01-b": "Device.terminal_info() cached: stale terminal sites / edges / lengths after the device is re-meshed",
  "C02-a": "retry loop re-runs the kernel with the un-reduced dt and reports the reduced one",
- "C02-b": "early return psi' = w for gamma = 0 leaves |psi'|^2 stale",
+ "C02-b": "early return psi' = w for gamma = 0 leaves the reported squared modulus stale",
  "C02-c": "stable root formula replaced by the textbook one with a z == 0 guard: catastrophic cancellation for small non-zero z (floating point only)",
  "C03-a": "conjugate of the link variable dropped in the in-place refresh of the Laplacian",
  "C03-b": "cached row / column index arrays of the Laplacian links swapped (refresh path)",
